@@ -200,23 +200,31 @@ def check_locks(chk, tier):
         raise vlib.ToolError("lock programs show no nesting: hooks off?")
     seg_path = os.path.join(chk.out, "segments.ndjson")
     vlib.write_ndjson(seg_path, segs)
-    reduced = leaf_reduce(segs)
+    reduced1 = leaf_reduce(segs)
+    reduced = leaf_reduce(reduced1)
     red_path = os.path.join(chk.out, "segments_reduced.ndjson")
     vlib.write_ndjson(red_path, reduced)
-    chk.cov["lock_programs"]["reduced_segments"] = len(reduced)
+    red1_path = os.path.join(chk.out, "segments_reduced1.ndjson")
+    vlib.write_ndjson(red1_path, reduced1)
+    chk.cov["lock_programs"]["reduced_segments"] = [len(reduced1),
+                                                    len(reduced)]
     vlib.log(f"lock programs: {stats['programs']} programs, "
              f"{stats['steps']} steps -> {len(segs)} distinct segments "
-             f"({stats['segment_steps']} steps), {len(reduced)} after one "
-             f"round of leaf-lock elimination")
+             f"({stats['segment_steps']} steps); {len(reduced1)} / "
+             f"{len(reduced)} segments after one / two rounds of leaf-lock "
+             f"elimination")
+    if not reduced:
+        raise vlib.ToolError("nothing left after leaf-lock elimination")
     if tier == "quick":
         runs = [("flock", 2, seg_path), ("rwlock_wp", 2, seg_path),
                 ("rwlock_np", 2, seg_path),
-                ("flock", 3, red_path), ("rwlock_wp", 3, red_path),
-                ("rwlock_wp", 4, red_path)]
+                ("flock", 3, red1_path), ("rwlock_wp", 3, red1_path),
+                ("flock", 4, red_path), ("rwlock_wp", 4, red_path)]
     else:
         runs = [("flock", 2, seg_path), ("rwlock_wp", 2, seg_path),
                 ("rwlock_np", 2, seg_path),
                 ("flock", 3, seg_path), ("rwlock_wp", 3, seg_path),
+                ("rwlock_wp", 3, red1_path),
                 ("flock", 4, red_path), ("rwlock_wp", 4, red_path)]
     for sem, n, path in runs:
         cfg = f"Locks_{sem}_{n}.cfg"
@@ -227,7 +235,8 @@ def check_locks(chk, tier):
         if res.violated == "DeadlockFree":
             # A model-level counterexample is not a finding by itself: it
             # is handed to the real code as a directed scenario.
-            return segs, model_deadlock(chk, res, sem, n)
+            return segs, model_deadlock(chk, res, sem, n,
+                                        vlib.read_ndjson(path))
         if res.violated or res.errors:
             print(res.counterexample()[:3000])
             raise vlib.ToolError(f"Locks/{cfg}: {res.violated or res.errors}")
@@ -239,8 +248,11 @@ def check_locks(chk, tier):
 def leaf_reduce(segs):
     """One round of leaf-lock elimination: a lock that no program ever holds
     while acquiring another one cannot be held or waited for in a deadlock
-    (its holder's next step is a release), so its acquisitions can be
-    dropped without losing any deadlock. Used for the 4-thread runs."""
+    (all its holder does before releasing it is releasing), so its
+    acquisitions can be dropped without losing any deadlock; by induction
+    the same holds for a second round on the reduced programs. Used for the
+    runs whose full state space is out of reach (4 threads; 3 threads in
+    the quick tier)."""
     inner = set()       # locks held while something else is acquired
     for s in segs:
         held = []
@@ -265,13 +277,116 @@ def leaf_reduce(segs):
             for i, (seg, ops) in enumerate(sorted(out.items()))]
 
 
-def model_deadlock(chk, res, sem, n):
-    """Turns TLC's counterexample into a description; the caller tries to
-    reproduce it on the real code before anything is reported."""
+TASK_TRIGGERS = {
+    "task all_cas_republish_if_needed": {"k": "bg", "task": "republish"},
+    "task all_cas_renew_objects_if_needed": {"k": "bg", "task": "renew"},
+    "task update_stored_snapshots": {"k": "bg", "task": "snapshots"},
+    "task update_rrdp_if_needed": {"k": "bg", "task": "rrdp"},
+    "task sync_ta_proxy_signer": {"k": "bg", "task": "ta"},
+    "task sync_repo_*": {"k": "sync_all"},
+}
+
+
+def ops_for_kind(kind, seg, rng):
+    """Concrete operations that run the lock segment `seg` recorded for the
+    operation kind `kind` (paired so that each of them takes effect)."""
+    locks = [st["l"] for st in seg["steps"]]
+    ca = next((l.split("/")[1] for l in locks
+               if l.startswith("cas/") and l.split("/")[1] in ("A", "B", "C")),
+              "A")
+    if kind in TASK_TRIGGERS:
+        return [dict(TASK_TRIGGERS[kind])]
+    if kind.startswith("task sync_"):
+        return [{"k": "refresh_all"}]
+    if kind in ("roa_add", "roa_del"):
+        r = rng.choice([1, 2, 3])
+        return [{"k": "roa_add", "ca": ca, "r": r},
+                {"k": "roa_del", "ca": ca, "r": r}]
+    if kind in ("ca_show", "history", "status"):
+        return [{"k": kind, "ca": ca}]
+    if kind in ("roll_init", "roll_activate"):
+        return [{"k": "roll_init", "ca": ca}, {"k": "roll_activate", "ca": ca}]
+    if kind in ("child_add", "child_rm", "ud_list"):
+        return [{"k": "child_add", "ca": "A", "child": "X", "ent": "s"},
+                {"k": "ud_list", "ca": "A", "child": "X"},
+                {"k": "child_rm", "ca": "A", "child": "X"}]
+    if kind == "child_upd":
+        return [{"k": kind, "ca": "A", "child": "B", "ent": "l"},
+                {"k": kind, "ca": "A", "child": "B", "ent": "s"}]
+    if kind in ("pub_add", "pub_rm"):
+        return [{"k": "pub_add", "p": "y"}, {"k": "pub_rm", "p": "y"}]
+    if kind in ("pub_show", "del_files"):
+        return [{"k": kind, "p": "x"}]
+    if kind == "publish":
+        return [{"k": kind, "p": "x", "elems": [
+                    {"k": "P", "u": 1, "c": "a", "h": ""}]},
+                {"k": kind, "p": "x", "elems": [
+                    {"k": "W", "u": 1, "c": "", "h": "a"}]}]
+    if kind in ("ca_list", "repo_stats", "session_reset", "refresh_all",
+                "sync_all", "republish"):
+        return [{"k": kind}]
+    if kind == "bg":
+        return [{"k": "bg", "task": "rrdp"}]
+    return []
+
+
+def model_deadlock(chk, res, sem, n, segs):
+    """A deadlock of the lock programs found by TLC is not a finding yet:
+    the operations whose segments are in the deadlocked state are run
+    against each other on the real code. Returns True if a real deadlock
+    (wait-for cycle under the watchdog) was reported."""
     text = res.counterexample()
-    states = text.split("State ")
-    last = states[-1] if states else ""
-    return {"semantics": sem, "threads": n, "last_state": last[:1500]}
+    last = text.split("State ")[-1]
+    m = re.search(r"seg = \((.*?)\)", last, re.S)
+    ids = [int(x) for x in re.findall(r"t\d+ :> (\d+)", m.group(1))] \
+        if m else []
+    involved = [segs[i - 1] for i in ids if 0 < i <= len(segs)]
+    vlib.log(f"Locks.tla ({sem}, {n} threads) reaches a deadlock between: "
+             + " | ".join(f"{s['ops']}: {fmt_segment(s)}" for s in involved))
+    if not involved:
+        raise vlib.ToolError("cannot read TLC's deadlock counterexample")
+    scenarios = []
+    for i in range(24):
+        threads = []
+        for s in involved:
+            kinds = [k for k in s["ops"] if not k.startswith("static")]
+            ops = []
+            while len(ops) < 24 and kinds:
+                group = ops_for_kind(chk.rng.choice(kinds), s, chk.rng)
+                if not group:
+                    break
+                for op in group:
+                    op = dict(op)
+                    # a task trigger needs time to be picked up
+                    op["d"] = chk.rng.choice([3000, 10000, 30000]) \
+                        if op["k"] in ("bg", "sync_all", "refresh_all") \
+                        else chk.rng.choice([0, 0, 300, 2000])
+                    ops.append(op)
+            if ops:
+                threads.append(ops)
+        scenarios.append({
+            "id": i + 1, "family": "model_deadlock",
+            "memory": i % 2 == 1,
+            "seed": chk.rng.randrange(1, 2 ** 31),
+            "yield_us": [1000, 3000, 10000, 200][i % 4],
+            "real_sched": False,
+            "pre": [{"k": "pub_add", "p": "x"}],
+            "threads": threads,
+        })
+    runs = run_scenarios(chk, scenarios, "model_deadlock", shards=8,
+                         watchdog_ms=10000, timeout=900)
+    found = False
+    for r in runs:
+        if r.get("deadlock"):
+            judge_run(chk, r)
+            found = True
+    if not found:
+        raise vlib.ToolError(
+            "Locks.tla reports a reachable deadlock of the recorded lock "
+            "programs (" + " | ".join(fmt_segment(s) for s in involved)
+            + f") under {sem} with {n} threads, but 24 directed runs on the "
+            "real code did not deadlock: not reported as a violation")
+    return True
 
 
 def locks_self_test(chk, segs):
@@ -318,7 +433,8 @@ def locks_self_test(chk, segs):
 # part 2: scenarios on the real code
 # --------------------------------------------------------------------------
 
-FAMILIES = ["same_ca", "diff_ca", "parent_child", "pubserver", "mixed"]
+FAMILIES = ["same_ca", "diff_ca", "parent_child", "pubserver", "mixed",
+            "rrdp_race", "sync_race"]
 
 
 def gen_elems(rng):
@@ -392,6 +508,29 @@ def gen_op(rng, family, t):
                 {"k": "refresh_all"} if x < 0.85 else query("B")))
     if family == "pubserver":
         return pub() if x < 0.85 else roa("ABC"[t % 3])
+    if family == "rrdp_race":
+        # aimed at the two critical sections of the RRDP update (S8):
+        # content changes, session resets and purges from several threads
+        # while the scheduler thread runs update_rrdp_if_needed
+        role = t % 3
+        if role == 0:
+            return {"k": "publish", "p": "x", "elems": gen_elems(rng)} \
+                if x < 0.8 else {"k": "bg", "task": "rrdp"}
+        if role == 1:
+            return {"k": "session_reset"} if x < 0.7 else \
+                {"k": "del_files", "p": "y"}
+        return {"k": "del_files", "p": "y"} if x < 0.5 else (
+            {"k": "session_reset"} if x < 0.8 else
+            {"k": "bg", "task": "rrdp"})
+    if family == "sync_race":
+        # aimed at the task queue: the API thread finishes-or-replaces the
+        # SyncParent task of B while the scheduler thread is running it
+        if t % 2 == 0:
+            return {"k": "child_upd", "ca": "A", "child": "B",
+                    "ent": rng.choice(["s", "l"])} if x < 0.85 else \
+                {"k": "refresh_all"}
+        return roa("B") if x < 0.5 else (
+            {"k": "refresh_all"} if x < 0.8 else roll("B"))
     # mixed
     if x < 0.25:
         return roa(rng.choice("ABC"))
@@ -416,14 +555,26 @@ def gen_scenario(rng, sid, family, memory):
         pre.append({"k": "child_add", "ca": "A", "child": "X", "ent": "s"})
     if rng.random() < 0.4:
         pre.append({"k": "roa_add", "ca": rng.choice("ABC"), "r": 1})
+    if family == "rrdp_race":
+        nthreads = rng.choice([3, 4])
+        pre = [{"k": "pub_add", "p": "x"}, {"k": "pub_add", "p": "y"}]
     threads = []
     for t in range(nthreads):
         ops = []
-        for _ in range(rng.randint(3, 6)):
+        # rrdp_race: few calls per thread, no pauses: what matters is which
+        # of several simultaneous writers of the RRDP files comes last
+        count = rng.randint(1, 3) if family == "rrdp_race" \
+            else rng.randint(3, 6)
+        for _ in range(count):
             op = gen_op(rng, family, t)
-            op["d"] = rng.choice([0, 0, 0, 300, 2000, 10000])
+            op["d"] = rng.choice([0, 0, 0, 300]) if family == "rrdp_race" \
+                else rng.choice([0, 0, 0, 300, 2000, 10000])
             ops.append(op)
         threads.append(ops)
+    if family == "sync_race" and rng.random() < 0.5:
+        # the operator removes the child while its sync may be running
+        threads[0].append({"k": "child_rm", "ca": "A", "child": "B",
+                           "d": rng.choice([0, 300, 2000, 20000])})
     return {
         "id": sid, "family": family, "memory": memory,
         "seed": rng.randrange(1, 2 ** 31),
@@ -482,13 +633,18 @@ REFUSALS = {
     "child_add": {"ca-child-duplicate"},
     "child_upd": {"ca-child-unknown"},
     "child_rm": {"ca-child-unknown"},
-    "ud_list": {"ca-child-unknown", "general-error", "refused"},
+    "ud_list": {"ca-child-unknown", "refused",
+                r"general-error: CA A has issue with request by child X: "
+                r"CA 'A' does not have.*"},
     "pub_add": {"pub-duplicate"},
     "pub_rm": {"pub-unknown"},
-    "publish": {"pub-unknown", "refused"},
+    "publish": {"pub-unknown", "refused",
+                r"general-error: Issue with publication request by "
+                r"publisher '[xy]': Unknown pub.*"},
     "pub_show": {"pub-unknown"},
-    "roll_init": {"key-roll-in-progress", "ca-key-roll-in-progress"},
-    "roll_activate": {"key-roll-no-new-key", "ca-key-roll-no-new-key"},
+    # depends on the stage of the roll, which the model does not track
+    "roll_init": {r"(ca-)?key-roll-[a-z-]+", r"ca-key-[a-z-]+"},
+    "roll_activate": {r"(ca-)?key-roll-[a-z-]+", r"ca-key-[a-z-]+"},
 }
 
 
@@ -509,10 +665,10 @@ def call_record(call, calls):
 def final_record(final):
     pubs = {}
     for p in ("x", "y"):
-        objs = final["pubs"].get(p)
-        pubs[p] = {"exists": objs is not None,
+        rec = final["pubs"].get(p, {"exists": False, "objs": {}})
+        pubs[p] = {"exists": bool(rec["exists"]),
                    "objs": sorted([int(u), c] for u, c in
-                                  (objs or {}).items())}
+                                  rec["objs"].items())}
     ch = final["children"].get("A", {})
     return {
         "roas": {ca: sorted(int(r[1:]) for r in final["roas"].get(ca, []))
@@ -553,9 +709,10 @@ def judge_run(chk, run):
             chk.report(f"Panic:{k}", f"call {c['op']} panicked: {res}",
                        replay)
             return False
-        if res != "ok" and res not in REFUSALS.get(k, set()):
+        if res != "ok" and not any(re.fullmatch(pat, res)
+                                   for pat in REFUSALS.get(k, set())):
             chk.report(
-                f"UnexpectedError:{k}:{res}",
+                f"UnexpectedError:{k}:{res.split(':')[0]}",
                 f"call {c['op']} was answered with '{res}', which no "
                 f"one-at-a-time execution gives", replay)
             return False
@@ -564,6 +721,9 @@ def judge_run(chk, run):
         m = re.search(r"(scheduler_\w+)(?: (\w+))?(?: ([a-z_]+?)_[A-Za-z]+)?",
                       fatal)
         kind = ":".join(x for x in (m.groups() if m else ()) if x) or "other"
+        if run.get("real_sched") and m:
+            # the daemon's own loop only tells which exit it took
+            kind = m.group(1)
         chk.report(
             f"SchedulerStopped:{kind}",
             f"the scheduler thread hit the condition on which the daemon "
@@ -572,6 +732,10 @@ def judge_run(chk, run):
     problems = run["final"].get("problems", [])
     if problems:
         cls = sorted({p.split(":")[0] for p in problems})
+        if "RrdpFilesStale" in cls:
+            # the files are those of an older revision of the content:
+            # whatever else differs follows from that
+            cls = ["RrdpFilesStale"]
         chk.report(
             "RepoAfterQuiescence:" + "+".join(cls),
             f"after all background work had caught up: {problems[:3]}",
@@ -580,60 +744,124 @@ def judge_run(chk, run):
     return True
 
 
-def linearise(chk, runs, tag):
+def linearise(chk, runs, tag, chunk=150, max_rejections=60):
     """TLC searches a serial order for every run. Returns the runs it found
-    none for, as (run, linearised_calls, total_calls)."""
+    none for, as (run, linearised_calls, total_calls, record)."""
     rejected = []
-    todo = list(runs)
-    validated = 0
     workdir = os.path.join(chk.out, tag)
     os.makedirs(workdir, exist_ok=True)
-    while todo:
-        recs = [{"id": r["id"],
-                 "calls": [call_record(c, r["calls"]) for c in r["calls"]],
-                 "final": final_record(r["final"])} for r in todo]
-        path = os.path.join(workdir, "runs.ndjson")
-        vlib.write_ndjson(path, recs)
-        res = vlib.run_tlc("KrillConcTrace", "KrillConcTrace.cfg", workdir,
-                           workers=1, timeout=1500, env_extra={"TRACE": path},
-                           heap="8g")
-        chk.cov["trace_states"] = chk.cov.get("trace_states", 0) \
-            + res.distinct
-        m = re.search(r'<<"TRACE_REJECTED", "depth", (\d+), "of", (\d+)>>',
-                      res.out)
-        if not m:
-            if res.errors or res.postcondition_failed or not res.finished:
-                print(res.out[-3000:])
-                raise vlib.ToolError("KrillConcTrace failed unexpectedly")
-            validated += len(todo)
-            break
-        depth = int(m.group(1)) - 1         # steps taken
-        idx = 0
-        while idx < len(recs) and depth >= len(recs[idx]["calls"]) + 1:
-            depth -= len(recs[idx]["calls"]) + 1
-            idx += 1
-        if idx >= len(recs):
-            raise vlib.ToolError("cannot locate the rejected scenario")
-        validated += idx
-        rejected.append((todo[idx], depth, len(recs[idx]["calls"]),
-                         recs[idx]))
-        todo = todo[idx + 1:]
-        if len(rejected) >= 10:
-            break
+    validated = 0
+    for start in range(0, len(runs), chunk):
+        todo = list(runs[start:start + chunk])
+        while todo:
+            recs = []
+            cum = 0
+            for r in todo:
+                calls = [call_record(c, r["calls"]) for c in r["calls"]]
+                cum += len(calls) + 1
+                recs.append({"id": r["id"], "calls": calls, "cum": cum,
+                             "final": final_record(r["final"])})
+            path = os.path.join(workdir, "runs.ndjson")
+            vlib.write_ndjson(path, recs)
+            res = vlib.run_tlc("KrillConcTrace", "KrillConcTrace.cfg",
+                               workdir, workers=1, timeout=1500,
+                               env_extra={"TRACE": path}, heap="8g")
+            chk.cov["trace_states"] = chk.cov.get("trace_states", 0) \
+                + res.distinct
+            m = re.search(
+                r'<<"TRACE_REJECTED", "depth", (\d+), "of", (\d+)>>',
+                res.out)
+            if not m:
+                if res.errors or res.postcondition_failed \
+                        or not res.finished:
+                    print(res.out[-3000:])
+                    raise vlib.ToolError(
+                        "KrillConcTrace failed unexpectedly")
+                validated += len(todo)
+                break
+            depth = int(m.group(1)) - 1         # steps taken
+            idx = 0
+            while idx < len(recs) and depth >= len(recs[idx]["calls"]) + 1:
+                depth -= len(recs[idx]["calls"]) + 1
+                idx += 1
+            if idx >= len(recs):
+                raise vlib.ToolError("cannot locate the rejected scenario")
+            validated += idx
+            out = res.out.replace('\\"', '"')
+            # which parts of the final state no complete serial order
+            # explains
+            diffs = [set(json.loads(d)) for i, d in re.findall(
+                r'<<"FINAL_MISMATCH", (\d+), "(.*)">>', out)
+                if int(i) == recs[idx]["id"]]
+            recs[idx]["mismatch"] = sorted(min(
+                diffs, key=lambda d: (len(d), sorted(d)))) if diffs else []
+            # the deepest dead ends of the search: which answers block it
+            ends = [(int(n), set(json.loads(d))) for i, n, d in re.findall(
+                r'<<"DEAD_END", (\d+), (\d+), "(.*)">>', out)
+                if int(i) == recs[idx]["id"]]
+            deepest = max((n for n, _ in ends), default=0)
+            stuck = [d for n, d in ends if n == deepest]
+            recs[idx]["stuck"] = sorted(min(
+                stuck, key=lambda d: (len(d), sorted(d)))) if stuck else []
+            rejected.append((todo[idx], depth, len(recs[idx]["calls"]),
+                             recs[idx]))
+            todo = todo[idx + 1:]
+            if len(rejected) >= max_rejections:
+                chk.cov["traces_validated_against_impl"] += validated
+                vlib.log(f"{max_rejections} runs rejected: the remaining "
+                         f"runs are not searched")
+                return rejected
     chk.cov["traces_validated_against_impl"] += validated
     return rejected
+
+
+def obj_key(op):
+    k = op["k"]
+    if k.startswith("roa_"):
+        return ("roas", op.get("ca"))
+    if k.startswith("child_") or k == "ud_list":
+        return ("child", op.get("child"))
+    if k.startswith("pub") or k == "del_files":
+        return ("pub", op.get("p"))
+    return None
+
+
+def concurrent_mutators(run, stuck):
+    """Kinds of the accepted state-changing calls on the same object that
+    overlapped in time with a call whose answer blocks the search."""
+    res = set()
+    calls = run["calls"]
+    for c in calls:
+        r = "ok" if c["res"] == "ok" else "err"
+        if f"{c['op']['k']}={r}" not in stuck:
+            continue
+        for d in calls:
+            if d is c or d["res"] != "ok" or obj_key(d["op"]) is None \
+                    or obj_key(d["op"]) != obj_key(c["op"]):
+                continue
+            if d["op"]["k"] in ("pub_show", "ud_list"):
+                continue
+            if d["s"] < c["e"] and c["s"] < d["e"]:
+                res.add(d["op"]["k"])
+    return sorted(res)
 
 
 def report_rejected(chk, rejected):
     for run, depth, total, rec in rejected:
         what = "final" if depth == total else "results"
-        kinds = "+".join(sorted({c["k"] for c in rec["calls"]
-                                 if c["k"] in REFUSALS or c["k"] ==
-                                 "del_files"}))
+        if what == "final":
+            detail = "+".join(rec.get("mismatch", [])) or "?"
+        else:
+            detail = "+".join(rec.get("stuck", [])) or "?"
+            conc = concurrent_mutators(run, rec.get("stuck", []))
+            if conc:
+                detail += "~" + "+".join(conc)
         chk.report(
-            f"NotSerialisable:{what}:{kinds}",
+            f"NotSerialisable:{what}:{detail}",
             (f"no one-at-a-time order of the {total} calls gives the "
-             f"recorded results" if what == "results" else
+             f"recorded results (answers no serial execution gives at the "
+             f"deepest dead end of the search: {rec.get('stuck')})"
+             if what == "results" else
              f"every serial order that explains the results ends in a state "
              f"different from the one observed after quiescence "
              f"({json.dumps(rec['final'])})")
@@ -708,8 +936,11 @@ def run(tier, seed):
         "RsyncdStore.lock (nested, no storage access inside); the caches of "
         "AggregateStore/WalStore and the signer maps are never held while "
         "another lock is acquired and are left out",
-        "4 threads are checked on the lock programs after one round of "
-        "leaf-lock elimination (sound for deadlocks, see checks/c18.py)",
+        "2 threads (quick) / 2 and 3 threads (thorough) are checked on the "
+        "complete lock segments; 3 threads in the quick tier after one "
+        "round and 4 threads after two rounds of leaf-lock elimination "
+        "(sound for deadlocks, see leaf_reduce in checks/c18.py); the "
+        "model's flock and non-preferring RwLock semantics coincide",
         "real schedules are sampled: seeded scenarios with delay injection "
         "at the storage lock hooks; linearisability and the final state are "
         "decided by TLC for each sampled run, not for all schedules",
@@ -720,16 +951,17 @@ def run(tier, seed):
     ]
     segs, model_dl = check_locks(chk, tier)
     if model_dl:
-        raise vlib.ToolError(
-            "Locks.tla reports a reachable deadlock of the recorded lock "
-            f"programs ({model_dl}); reproduce it on the real code before "
-            "calling it a finding")
+        # confirmed on the real code and reported; the sampled part would
+        # only hang in the same place
+        return chk.finish()
     watchdog_self_test(chk)
-    n = 40 if tier == "quick" else 480
+    n = 315 if tier == "quick" else 2700
+    # the RRDP writer race needs many short runs: three slots of nine
+    plan = FAMILIES + ["rrdp_race", "rrdp_race"]
     scenarios = []
     for i in range(n):
-        family = FAMILIES[i % len(FAMILIES)]
-        memory = (i // len(FAMILIES)) % 2 == 1
+        family = plan[i % len(plan)]
+        memory = (i // len(plan)) % 2 == 1
         scenarios.append(gen_scenario(chk.rng, i + 1, family, memory))
     t0 = time.time()
     runs = run_scenarios(chk, scenarios, "runs",
@@ -754,8 +986,10 @@ def run(tier, seed):
                     "final": r["final"]})
     rejected = linearise(chk, good, "lin")
     report_rejected(chk, rejected)
-    if not rejected and good:
-        lin_self_test(chk, good)
+    rejected_ids = {r[0]["id"] for r in rejected}
+    accepted = [r for r in good if r["id"] not in rejected_ids]
+    if accepted and len(rejected) < 60:
+        lin_self_test(chk, accepted)
     # anti-vacuity: every family on both back-ends, the order-dependent
     # operations and the tasks must have been exercised
     if not chk.violations:
@@ -785,7 +1019,7 @@ def run(tier, seed):
     chk.cov["rule"] = (
         "part 1: every distinct lock segment recorded from the real code x "
         "2..4 threads x {flock, RwLock writer-preferring, RwLock "
-        "non-preferring}, exhaustive; part 2/3: seeded scenarios (5 families "
+        "non-preferring}, exhaustive; part 2/3: seeded scenarios (7 families "
         "x 2 back-ends, 2-4 worker threads + scheduler thread, delay "
         "injection) executed on the real code under a watchdog, each "
         "validated by TLC (KrillConcTrace: serial order consistent with "
